@@ -305,7 +305,7 @@ func drawKeyIdx(rt *rapid.T) int {
 
 // TestRSA: random (key, trailer, M1, challenge, mutation class).
 func TestRSA(t *testing.T) {
-	evid.RapidCheck(t, 2400, 110000, func(rt *rapid.T) {
+	evid.RapidCheck(t, 2400, 100000, func(rt *rapid.T) {
 		keyIdx := drawKeyIdx(rt)
 		tr := rapid.SampledFrom(icaoTrailers).Draw(rt, "trailer")
 		chal := challengeGen.Draw(rt, "challenge")
